@@ -814,6 +814,7 @@ pub fn execute(scn: &Scenario, ctx: &mut Ctx) {
             )
         });
         if let Some((out, v)) = many {
+            ctx.count("oracle/many_vs_loop_evaluations", 1);
             ctx.cell("dmany", (loop_recs.len().min(3) as u32) * 3 + if off == bytes.len() { 0 } else if bytes.len() - off < 13 { 1 } else { 2 });
             ctx.trace(0xd6, out.code() & 0xfffff | (loop_recs.len() as u64) << 24, bytes.len());
             if loop_recs.is_empty() {
@@ -899,6 +900,7 @@ pub fn execute(scn: &Scenario, ctx: &mut Ctx) {
                     // sender's log for this record
                     let lrec = if trusted { dg.recs.iter().find(|r| r.start == pos && r.end == pos + 13 + l && !r.lied) } else { None };
                     if let Some(lr) = lrec {
+                        ctx.count("oracle/records_compared_with_sender_log", 1);
                         let constrained = record_oracle(ctx, scn, lr, &p, sub);
                         ri += 1;
                         // feed the harness reassembler and the truth table
@@ -962,6 +964,7 @@ pub fn execute(scn: &Scenario, ctx: &mut Ctx) {
                 continue;
             }
             ctx.fault("reassembled");
+            ctx.count("oracle/messages_reassembled_end_to_end", 1);
             let r = match reasm.get(&mseq) {
                 Some(r) => r,
                 None => {
@@ -1109,6 +1112,7 @@ fn record_oracle(ctx: &mut Ctx, scn: &Scenario, lr: &LRec, p: &PRec, sub: &[u8])
                 ctx.violate(Prop::C10, "dtls/header-field/fragment_length", || format!("message {}: fragment_length {} decoded, {} sent", i, m.flen, f.len));
             }
             let is_frag = f.off > 0 || f.len < f.total;
+            ctx.count(if is_frag { "oracle/fragments_checked" } else { "oracle/unfragmented_bodies_compared" }, 1);
             ctx.cell("dfrag", (is_frag as u32) * 4 + (f.len == 0) as u32 * 2 + (f.off + f.len == f.total) as u32);
             if m.is_fragment != is_frag {
                 ctx.violate(Prop::C10, "dtls/fragment-predicate", || format!("message {}: offset {} fragment_length {} length {}: is_fragment() = {}, expected {}", i, f.off, f.len, f.total, m.is_fragment, is_frag));
